@@ -38,6 +38,7 @@ pub fn draw_case(prop: &str, engine: &str, seed: u64, tier: &str) -> Case {
     c.pagesize = *r.pick(&[1024, 1024, 1024, 1024, 2048, 4096]);
     c.num_pages = *r.pick(&[4, 8, 32, 32, 64]);
     c.handle_cache = r.chance(1, 2);
+    c.via_iter = r.chance(1, 4);
     c.strict = r.chance(1, 8);
     match prop {
         "C07" => {
